@@ -6,7 +6,7 @@ package boltz
 
 // fireEvents: the pre-commit constraints run; if none objects, exactly one post-commit delivery of this very state is
 // registered on the context's transaction; if one objects, nothing is registered
-//@ define regOne(tx, fnName, recv) = ocCnt[tx] == old(ocCnt[tx]) + 1 && sel(ocFn[tx], old(ocCnt[tx])) == fnName && sel(ocRecv[tx], old(ocCnt[tx])) == ref(recv) && forall(k, 0 <= k && k < old(ocCnt[tx]) ==> sel(ocFn[tx], k) == sel(old(ocFn[tx]), k) && sel(ocRecv[tx], k) == sel(old(ocRecv[tx]), k))
+//@ define regOne(tx, fnName, recv) = ocCnt[tx] == old(ocCnt[tx]) + 1 && ocFn[tx] == sto(old(ocFn[tx]), old(ocCnt[tx]), fnName) && ocRecv[tx] == sto(old(ocRecv[tx]), old(ocCnt[tx]), ref(recv))
 //@ define regNone(tx) = ocCnt[tx] == old(ocCnt[tx]) && ocFn[tx] == old(ocFn[tx]) && ocRecv[tx] == old(ocRecv[tx])
 // the registration ghosts are private: only Tx.OnCommit (and contracts that name them) change them, so a function
 // whose modifies clause does not name them is proved (or, for trusted ones, assumed) to register nothing
@@ -24,37 +24,41 @@ package boltz
 //@   modifies *, ocCnt, ocFn, ocRecv
 //@   ensures[one-delivery-registered] result == nil ==> regOne(ctxTx[self.Ctx], fnid("(*github.com/openziti/storage/boltz.EntityChangeState[E]).processPostCommit$bound"), self)
 //@   ensures[vetoed-registers-nothing] result != nil ==> ocCnt == old(ocCnt) && ocFn == old(ocFn) && ocRecv == old(ocRecv)
-//@   ensures[other-transactions-untouched] forall(t, t != ctxTx[self.Ctx] ==> sel(ocCnt, t) == sel(old(ocCnt), t) && sel(ocFn, t) == sel(old(ocFn), t) && sel(ocRecv, t) == sel(old(ocRecv), t))
+//@   ensures[other-transactions-untouched] ocOthersSame(ctxTx[self.Ctx])
 
 // a change flow seen through its interface: its context, kind, id and parent flag are views of the state's fields
-//@ ghost ecsCtx : (Array Int Int) dispatch
-//@ ghost ecsKind : (Array Int Int) dispatch
-//@ ghost ecsParent : (Array Int Bool) dispatch
-//@ ghost ecsId : (Array Int Str) dispatch
+//@ ghost ecsCtx : (Array Int Int) dispatch private
+//@ ghost ecsKind : (Array Int Int) dispatch private
+//@ ghost ecsParent : (Array Int Bool) dispatch private
+//@ ghost ecsId : (Array Int Str) dispatch private
 //@ view ecsId[*EntityChangeState] = self.EntityId
 // a change state's context, kind and entity id are fixed once it has been filled (literal, init or initFromChild)
 //@ immutable H.boltz.EntityChangeState.Ctx.typ
 //@ immutable H.boltz.EntityChangeState.Ctx.val
 //@ immutable H.boltz.EntityChangeState.ChangeType
 //@ immutable H.boltz.EntityChangeState.EntityId
+//@ immutable H.boltz.EntityChangeState.InitialState
+// a store's parent is fixed when the store is built
+//@ immutable H.boltz.BaseStore.parent.typ
+//@ immutable H.boltz.BaseStore.parent.val
 //@ view ecsCtx[*EntityChangeState] = ref(self.Ctx)
 //@ view ecsKind[*EntityChangeState] = self.ChangeType
 //@ view ecsParent[*EntityChangeState] = self.ParentEvent
 //@ define ocSame() = ocCnt == old(ocCnt) && ocFn == old(ocFn) && ocRecv == old(ocRecv)
-//@ define ocOthersSame(tx) = forall(t, t != tx ==> sel(ocCnt, t) == sel(old(ocCnt), t) && sel(ocFn, t) == sel(old(ocFn), t) && sel(ocRecv, t) == sel(old(ocRecv), t))
+//@ define ocOthersSame(tx) = ocCnt == sto(old(ocCnt), tx, sel(ocCnt, tx)) && ocFn == sto(old(ocFn), tx, sel(ocFn, tx)) && ocRecv == sto(old(ocRecv), tx, sel(ocRecv, tx))
 //@ func (entityChangeFlow).fireEvents
 //@   modifies *, ocCnt, ocFn, ocRecv
 //@   ensures[one-delivery-registered] result == nil ==> regOne(ctxTx[ecsCtx[self]], fnid("(*github.com/openziti/storage/boltz.EntityChangeState[E]).processPostCommit$bound"), self) && ocOthersSame(ctxTx[ecsCtx[self]])
 //@   ensures[vetoed-registers-nothing] result != nil ==> ocSame()
 //@ func (entityChangeFlow).initFromChild
-//@   modifies *, any EntityChangeState.Ctx, any EntityChangeState.ChangeType, any EntityChangeState.EntityId
+//@   modifies *, any EntityChangeState.Ctx, any EntityChangeState.ChangeType, any EntityChangeState.EntityId, any EntityChangeState.InitialState, ecsCtx[self], ecsKind[self], ecsId[self], ecsParent[self]
 //@   ensures[takes-the-child-flow's-context-and-kind] ecsCtx[self] == old(ecsCtx[flow]) && ecsKind[self] == old(ecsKind[flow]) && ecsId[self] == old(ecsId[flow]) && ecsParent[self]
 //@   ensures[child-flow-untouched] ecsCtx[flow] == old(ecsCtx[flow]) && ecsKind[flow] == old(ecsKind[flow]) && ecsId[flow] == old(ecsId[flow])
 //@ func (*EntityChangeState).initFromChild
 //@   props C08
 //@   nosafety
 //@   waive immutable two-step construction: the parent state was allocated by newEntityChangeFlow just before and is filled here before anything else sees it
-//@   modifies *, self.Ctx, self.ChangeType, self.EntityId
+//@   modifies *, self.Ctx, self.ChangeType, self.EntityId, self.InitialState
 //@   ensures[takes-the-child-flow's-context-and-kind] ref(self.Ctx) == old(ecsCtx[flow]) && self.ChangeType == old(ecsKind[flow]) && self.ParentEvent && self.EntityId == old(ecsId[flow])
 //@ func (UntypedEntityChangeState).GetCtx
 //@   pure
@@ -70,7 +74,7 @@ package boltz
 //@ func (UntypedEntityChangeState).GetFinalParentEntity
 //@   pure
 //@ func (entityChangeFlow).MarkParentEvent
-//@   modifies *
+//@   modifies *, ecsParent[self]
 //@   ensures ecsParent[self] && ecsCtx[self] == old(ecsCtx[self]) && ecsKind[self] == old(ecsKind[self])
 //@ func (storeInternal).newEntityChangeFlow
 //@   pure
@@ -95,7 +99,10 @@ package boltz
 //@   nosafety
 //@   modifies *, ocCnt, ocFn, ocRecv
 //@   lensures[holder] bucket != nil && bucket.Err != nil ==> result != nil
-//@   lensures[own-and-parent-event] result == nil ==> ocCnt[ctxTx[ctx]] == old(ocCnt[ctxTx[ctx]]) + ite(old(store.parent) != nil, 2, 1) && sel(ocRecv[ctxTx[ctx]], ocCnt[ctxTx[ctx]] - 1) == ref(changeFlow) && changeFlow.ChangeType == EntityCreated && changeFlow.Ctx == ctx && !changeFlow.ParentEvent && ocOthersSame(ctxTx[ctx])
+//@   lensures[one-event-plus-one-for-the-parent] result == nil && changeFlow != nil ==> ocCnt[ctxTx[ctx]] == old(ocCnt[ctxTx[ctx]]) + ite(old(store.parent) != nil, 2, 1)
+//@   lensures[own-event-last] result == nil ==> sel(ocRecv[ctxTx[ctx]], ocCnt[ctxTx[ctx]] - 1) == ref(changeFlow)
+//@   lensures[own-event-state] result == nil ==> changeFlow.ChangeType == EntityCreated && changeFlow.Ctx == ctx
+//@   lensures[other-transactions-untouched] result == nil && changeFlow != nil ==> ocOthersSame(ctxTx[ctx])
 //@ func (ChildStoreStrategy).HandleUpdate
 //@   props C07
 //@   impl all
@@ -108,14 +115,17 @@ package boltz
 //@   nosafety
 //@   modifies *, ocCnt, ocFn, ocRecv
 //@   lensures[holder] bucket != nil && bucket.Err != nil ==> result != nil
-//@   lensures[own-and-parent-event] result == nil ==> ocCnt[ctxTx[ctx]] == old(ocCnt[ctxTx[ctx]]) + ite(old(store.parent) != nil, 2, 1) && sel(ocRecv[ctxTx[ctx]], ocCnt[ctxTx[ctx]] - 1) == ref(changeFlow) && changeFlow.ChangeType == EntityUpdated && changeFlow.Ctx == ctx && !changeFlow.ParentEvent && changeFlow.InitialState == baseEntity && ocOthersSame(ctxTx[ctx])
+//@   lensures[one-event-plus-one-for-the-parent] result == nil && changeFlow != nil ==> ocCnt[ctxTx[ctx]] == old(ocCnt[ctxTx[ctx]]) + ite(old(store.parent) != nil, 2, 1)
+//@   lensures[own-event-last] result == nil ==> sel(ocRecv[ctxTx[ctx]], ocCnt[ctxTx[ctx]] - 1) == ref(changeFlow)
+//@   lensures[own-event-state] result == nil ==> changeFlow.ChangeType == EntityUpdated && changeFlow.Ctx == ctx && changeFlow.InitialState == baseEntity
+//@   lensures[other-transactions-untouched] result == nil && changeFlow != nil ==> ocOthersSame(ctxTx[ctx])
 //@   invariant 1: ocSame()
 
 // Delete: one change flow per child store that holds the entity plus one for the store itself, each fired exactly once,
 // in order, as the last registrations; the store's own flow is marked as parent event iff a child flow exists
 //@ func (storeInternal).processDeleteConstraints
 //@   modifies *, ocCnt, ocFn, ocRecv
-//@   ensures result0 != nil ==> fresh(result0)
+//@   ensures[a-delete-flow] result0 != nil ==> fresh(result0) && istype(result0, *EntityChangeState) && as(result0, *EntityChangeState).Ctx == ctx && as(result0, *EntityChangeState).ChangeType == EntityDeleted && as(result0, *EntityChangeState).EntityId == id
 //@ func (*BaseStore).processDeleteConstraints
 //@   props C07 C08
 //@   errflow
@@ -133,10 +143,10 @@ package boltz
 //@   props C08 C07
 //@   errflow
 //@   nosafety
-//@   modifies *, ocCnt, ocFn, ocRecv
-//@   lensures[every-flow-fired-once-in-order] result == nil && store.parent == nil && bucket != nil ==> forall(j, 0 <= j && j < len(changeFlows) ==> sel(ocRecv[ctxTx[ctx]], ocCnt[ctxTx[ctx]] - len(changeFlows) + j) == ref(changeFlows[j]))
+//@   modifies *, ocCnt, ocFn, ocRecv, ecsParent
+//@   lensures[every-flow-fired-once-in-order] result == nil && store.parent == nil && bucket != nil && changeFlows[0] != nil ==> forall(j, 0 <= j && j < len(changeFlows) ==> sel(ocRecv[ctxTx[ctx]], ocCnt[ctxTx[ctx]] - len(changeFlows) + j) == ref(changeFlows[j]))
 //@   invariant 1: len(changeFlows) >= 1 && (hasChildren == (len(changeFlows) > 1)) && forall(j, 1 <= j && j < len(changeFlows) ==> changeFlows[j] != nil && ecsCtx[changeFlows[j]] == ref(ctx))
-//@   invariant 2: len(changeFlows) >= 1 && forall(j, 0 <= j && j < len(changeFlows) ==> changeFlows[j] != nil && ecsCtx[changeFlows[j]] == ref(ctx)) && forall(j, 0 <= j && j <= rangeindex ==> sel(ocRecv[ctxTx[ctx]], ocCnt[ctxTx[ctx]] - (rangeindex + 1) + j) == ref(changeFlows[j]))
+//@   invariant 2: len(changeFlows) >= 1 && (changeFlows[0] != nil ==> len(changeFlows) >= 1 && forall(j, 0 <= j && j < len(changeFlows) ==> changeFlows[j] != nil && ecsCtx[changeFlows[j]] == ref(ctx)) && forall(j, 0 <= j && j <= rangeindex ==> sel(ocRecv[ctxTx[ctx]], ocCnt[ctxTx[ctx]] - (rangeindex + 1) + j) == ref(changeFlows[j])))
 //@ func (*BaseStore).DeleteWhere
 //@   props C07
 //@   errflow
